@@ -10,7 +10,7 @@ UNITS = {
     'shred_auth': {'template': 'units/shred_auth/unit.rs', 'serves': ['C12'], 'min_verified': 22},
     'rs_codec': {'template': 'units/rs_codec/unit.rs', 'serves': ['C11'], 'min_verified': 34},
     'wire': {'template': 'units/wire/unit.rs', 'serves': ['C19'], 'min_verified': 24},
-    'pool': {'template': 'units/pool/unit.rs', 'serves': ['C04', 'C08'], 'min_verified': 85},
+    'pool': {'template': 'units/pool/unit.rs', 'serves': ['C04', 'C08', 'C18', 'C03'], 'min_verified': 92},
     'slot_state': {'template': 'units/slot_state/unit.rs', 'serves': ['C03', 'C04', 'C06'], 'min_verified': 88},
 }
 
